@@ -183,6 +183,10 @@ func choose(hash common.Hash, w *big.Int, p float64) int64 {
 	bigValue := new(big.Float).Quo(new(big.Float).SetInt(hb), new(big.Float).SetInt(maxVrfHashValue))
 	target, _ := bigValue.Float64()
 	n := w.Int64()
+	if p > 1 {
+		// a committee larger than the total stake selects every unit of stake; the CDF below panics for p > 1
+		p = 1
+	}
 	binom := distuv.Binomial{N: float64(n), P: p}
 	//Pr(X <= k) = F(k;n,p)
 	//need to find the first j such that target <= F(j;n,p)
